@@ -155,11 +155,48 @@ DD_ASSUME = ["std::timed_mutex behaves as the acquire/release semantics of the m
              "covered in the model by the `skip` parameter of the acquisition event (theorems hold for every skip list)"]
 
 
+DD_TIE = (" The model is tied to the source on every run: the unmodified header runs against substituted std primitives under a "
+          "deterministic scheduler with a payload type whose destructor and callback are traced and may re-enter the container "
+          "(add / size / destroyObjects), scripts with shared ownership, duplicates of one pointer, throwing and resurrecting "
+          "callbacks, time-outs at every try_lock_for site, the delayed overload and the destructor's retry loop; every trace "
+          "must be accepted by the model's step function with all model edges covered. DelayedDestructorSingleThread runs "
+          "through the same model (the driver inserts the uncontended lock events that class omits).")
+
+
 def register(PROPS, COMPONENTS):
-    COMPONENTS["dd"] = dict(client="dd", driver="dd", directed_runs=6, quick_runs=1600, thorough_runs=40000, oracle=oracle_dd)
+    COMPONENTS["dd"] = dict(client="dd", driver="dd", directed_runs=6, quick_runs=1600, thorough_runs=40000, oracle=oracle_dd,
+                            cov_headers=["gmlc/concurrency/DelayedDestructor.hpp"])
     PROPS["C16"] = dict(
         lean_files=["ConcVerif/Props/C16.lean"], components=["dd"], stage="A",
-        level_text="TODO", level_note="TODO", trusted_base=DD_TRUST, assumptions=DD_ASSUME, partial=[],
+        level_text="Lean 4 theorems (kernel-checked; unbounded threads, objects, calls, interleavings, lock time-outs, re-entrant "
+                   "callbacks and payload destructors as a per-thread frame stack) over an executable model of "
+                   "DelayedDestructor.hpp at the level of its timed-mutex operations, payload life-cycle events and callback "
+                   "invocations, with an explicit reference ledger (external copies + vector entries + ecall entries): no "
+                   "destructor starts twice (C16_once, C16_once_step); when the container's destructor has emptied the vector, all "
+                   "threads are idle and an object's external owners are gone, that object has been destroyed exactly once "
+                   "(C16_once_final, C16_dtor_returns_empty, C16_dtor_done_stays_empty, C16_no_leak); a destructor starts only when "
+                   "no external copy, vector entry or ecall entry references the object (C16_not_while_owned); at every destructor / "
+                   "callback event, and during the whole user code, the thread does not hold destructionLock, a thread about to "
+                   "acquire never holds it, the holder can always release, re-entrant calls are accepted and their acquisitions "
+                   "enabled (C16_outside_lock, C16_user_code_unlocked, C16_no_self_deadlock, C16_holder_enabled, "
+                   "C16_reentrant_enabled, C16_acquire_enabled); callbacks of one call run over its ecall vector front to back once "
+                   "each and every object still to be destroyed by a non-throwing call had its callback exactly once, before any of "
+                   "them is destroyed (C16_callback_once, C16_callback_order, C16_callback_before_destruction); with multiplicity "
+                   "every push_back is in the vector, was reaped by a selection, or released by the vector's destructor, selections "
+                   "take only objects whose use_count is 1, and returned sizes are the vector's length at a critical section of the "
+                   "call or the sentinel exactly on a first-attempt time-out (C16_accounting, C16_reap_only_unowned, C16_size_value, "
+                   "C16_size_returned, C16_destroy_*)." + DD_TIE,
+        level_note="Trusted: Lean kernel (+propext, Classical.choice, Quot.sound), the primitive semantics of std::timed_mutex, "
+                   "std::shared_ptr reference counting (represented by the ledger), shim + scheduler + driver glue. Model stage A "
+                   "(the exact program), except that the scan of destroyObjects may skip selectable objects (`skip` parameter).",
+        trusted_base=DD_TRUST, assumptions=DD_ASSUME,
+        partial=["C16_callback_once is stated per destroyObjects call (per reap): an object whose callback re-adds it is reaped "
+                 "again later and gets one callback per reap; the statement for the object being destroyed at this moment is the "
+                 "one for the ecall vector just before its release",
+                 "the size recorded under the lock (`sz`) is carried in the call's frames; that it is unchanged from the first "
+                 "critical section to the return is visible in the step function but not stated as a separate history theorem",
+                 "deadlock-freedom of re-entrant calls is proved as enabledness facts (no self-hold, holder can release, "
+                 "acquisitions enabled when the lock is free); fair termination is not mechanised"],
     )
 
 
